@@ -123,6 +123,22 @@ theorem replay_history_exact (auth : Auth) (b₀ : B) (h0 : Pristine b₀) (hst 
     absStore r.1 = S ∧ r.1.store = (run auth b₀ evs).store :=
   Broker.replay_history_exact auth b₀ h0 hst evs hwf now name mid topic qos g hopen hacc hwin
 
+/-- the same, read on the PUBLISH packets alone: the PUBLISH packets the SUBSCRIBE step emits — to
+anybody — are exactly the replay (`Spec.replayFor`), all addressed to the subscriber, and the last
+packet of the step is the SUBACK -/
+theorem replay_history_pubs (auth : Auth) (b₀ : B) (h0 : Pristine b₀) (hst : StoreWF b₀.store)
+    (evs : List Spec.Ev) (hwf : Spec.wellFormed evs = true)
+    (now : Int) (name : String) (mid : UInt16) (topic : Bytes) (qos : UInt8) (g : Grant)
+    (hopen : (Spec.runStore auth (Spec.initStore b₀) evs).isOpen name = true)
+    (hacc : Spec.acceptedSub auth (Spec.runStore auth (Spec.initStore b₀) evs).banned topic = some g)
+    (hwin : Spec.inWindow now (parseChannel (fixTopic topic)).window = true) :
+    let out := (step auth (run auth b₀ evs) name (.subscribe mid topic qos)).2
+    out.filter isPub =
+      (Spec.replayFor auth now (Spec.runStore auth (Spec.initStore b₀) evs) topic).map
+        (fun m => (name, Pkt.pub m.channel m.payload)) ∧
+    out.getLast? = some (name, .suback mid [qos]) :=
+  Broker.replay_history_pubs auth b₀ h0 hst evs hwf now name mid topic qos g hopen hacc hwin
+
 /-- **what is not stored is never replayed**: a message published without the retain flag and
 without a positive ttl option, or with a key that has no store permission (`Spec.unstorable`),
 leaves the specification state — hence the log — after the whole history equal to the one after
@@ -268,6 +284,15 @@ example : ∃ notes : Out, (∀ e ∈ notes, ∃ t f, e.2 = Pkt.json t f) ∧
 /-- … and this is all the model sends (nobody watches the channel, so there are no notifications) -/
 example : (step demoAuth (run demoAuth {} demo) "s1" (.subscribe 1 (ka ++ last2) 0)).2 =
     [("s1", .pub [97, 47] [116, 53]), ("s1", .pub [97, 47] [98, 121, 101]), ("s1", .suback 1 [0])] := by decide +kernel
+/-- `replay_history_pubs` on the same subscription: the default `last` (no option) -/
+example : ((step demoAuth (run demoAuth {} demo) "s1" (.subscribe 2 ka 1)).2.filter isPub =
+      [recBye].map (fun m => ("s1", Pkt.pub m.channel m.payload))) ∧
+    (step demoAuth (run demoAuth {} demo) "s1" (.subscribe 2 ka 1)).2.getLast? = some ("s1", .suback 2 [1]) := by
+  have h := replay_history_pubs demoAuth {} ⟨rfl, rfl⟩ (by intro m hm; cases hm) demo (by decide +kernel) 0 "s1" 2
+    ka 1 ⟨7, 0x3e⟩ (by decide +kernel) (by decide +kernel) (by decide +kernel)
+  have hr : Spec.replayFor demoAuth 0 (Spec.runStore demoAuth (Spec.initStore {}) demo) ka = [recBye] := by decide +kernel
+  rw [hr] at h
+  exact h
 /-- default `last`, `last=0`, no load permission: the model's answers -/
 example : (step demoAuth (run demoAuth {} demo) "s1" (.subscribe 2 ka 1)).2 =
     [("s1", .pub [97, 47] [98, 121, 101]), ("s1", .suback 2 [1])] := by decide +kernel
